@@ -292,7 +292,21 @@ func e2eInner(t *testing.T) {
 	}
 	tap := &e2eTap{fd: tapFd}
 	var claimedAt int64 // unix nanos of the first answered probe for the claimed address
+	// a second address is defended the way RFC 5227 2.6 recommends: the owner's ARP replies go to the link-layer broadcast address
+	const claimed2 = claimed + 1
+	var claimed2At int64
 	go tap.run(func(f e2eFrame) {
+		if f.outgoing && len(f.b) >= 42 && f.b[12] == 0x08 && f.b[13] == 0x06 && binary.BigEndian.Uint16(f.b[20:]) == 1 &&
+			binary.BigEndian.Uint32(f.b[38:]) == claimed2 {
+			rep := make([]byte, 28)
+			copy(rep, []byte{0, 1, 8, 0, 6, 4, 0, 2})
+			copy(rep[8:14], []byte{0x02, 0xcc, 0, 0, 0, 0x65})
+			binary.BigEndian.PutUint32(rep[14:], claimed2)
+			copy(rep[18:24], f.b[22:28])
+			copy(rep[24:28], f.b[28:32])
+			atomic.CompareAndSwapInt64(&claimed2At, 0, time.Now().UnixNano())
+			inject(net.HardwareAddr{0xff, 0xff, 0xff, 0xff, 0xff, 0xff}, net.HardwareAddr{0x02, 0xcc, 0, 0, 0, 0x65}, 0x0806, rep)
+		}
 		// the server's ARP probes for the claimed address are answered by a foreign host
 		if f.outgoing && len(f.b) >= 42 && f.b[12] == 0x08 && f.b[13] == 0x06 && binary.BigEndian.Uint16(f.b[20:]) == 1 &&
 			binary.BigEndian.Uint32(f.b[38:]) == claimed {
@@ -388,7 +402,8 @@ func e2eInner(t *testing.T) {
 		seen("c06")
 		oc := &simClient{mac: []byte{2, 0xdd, 0, 0, 0, 0x33}, xid: 0x0b0b0b0b}
 		mark := len(tap.snapshot())
-		inject(net.HardwareAddr{0xff, 0xff, 0xff, 0xff, 0xff, 0xff}, net.HardwareAddr(oc.mac), 0x0800, udpip(0, 0xffffffff, 68, 67, 17, 64, oc.msg(1, 0x8000, 0).bytes()))
+		// (it asks for the address that is defended by broadcast ARP replies: the suggestion is probed first and must be passed over)
+		inject(net.HardwareAddr{0xff, 0xff, 0xff, 0xff, 0xff, 0xff}, net.HardwareAddr(oc.mac), 0x0800, udpip(0, 0xffffffff, 68, 67, 17, 64, oc.msg(1, 0x8000, 0, wopt{50, u32b(claimed2)}).bytes()))
 		got := false
 		for end := time.Now().Add(5 * time.Second); time.Now().Before(end) && !got; time.Sleep(50 * time.Millisecond) {
 			for _, f := range tap.snapshot()[mark:] {
@@ -398,6 +413,10 @@ func e2eInner(t *testing.T) {
 						if !bytes.Equal(f.b[0:6], []byte{0xff, 0xff, 0xff, 0xff, 0xff, 0xff}) || rp.dst != 0xffffffff || rp.msg.flags&0x8000 == 0 {
 							bad("c06", "e2e-server-frame", "OFFER to a client that set the broadcast flag went to %s / %s with flags %04x", net.HardwareAddr(f.b[0:6]), ip4(rp.dst), rp.msg.flags)
 						}
+						if y := rp.msg.yiaddr; (y == claimed && atomic.LoadInt64(&claimedAt) != 0) || (y == claimed2 && atomic.LoadInt64(&claimed2At) != 0) {
+							seen("c08")
+							bad("c08", "e2e-offered-claimed-address", "offered %s to the observer's client although a foreign host answered the server's ARP probe for it", ip4(y))
+						}
 						cs.add(1410, "e2e-offer-bcast", true, args(L{0, uint64(oc.xid), 0, 0, 0}, B(oc.mac), B(f.b[14:])), args(L{1}))
 					}
 				}
@@ -405,6 +424,43 @@ func e2eInner(t *testing.T) {
 		}
 		if !got {
 			bad("c06", "e2e-no-reply", "no OFFER within 5 s for a DISCOVER that sets the broadcast flag (three pool addresses are free)\n%s", tailStr(srvLog.String(), 500))
+		}
+	}
+
+	// a message with a 16-octet hardware address that has to be answered by unicast (an INIT-REBOOT REQUEST for an address the
+	// sender does not hold: NAK to the sender's link-layer address): the real send socket has room for 8 octets of address
+	{
+		seen("c10")
+		lc := &simClient{mac: []byte{2, 0xdd, 0, 0, 0, 0x44, 1, 2, 3, 4, 5, 6, 7, 8, 9, 10}, xid: 0x0c0c0c0c}
+		for _, hl := range []int{16, 9, 8, 7} {
+			m := lc.msg(3, 0, 0, wopt{50, u32b(0x0a4d0065)})
+			m.hlen = byte(hl)
+			inject(net.HardwareAddr{0xff, 0xff, 0xff, 0xff, 0xff, 0xff}, net.HardwareAddr(lc.mac[:6]), 0x0800, udpip(0, 0xffffffff, 68, 67, 17, 64, m.bytes()))
+			time.Sleep(900 * time.Millisecond)
+		}
+		if !alive(srv) {
+			bad("c10", "e2e-server-died", "psa-dhcpd is gone after REQUESTs with hardware addresses of 16, 9, 8 and 7 octets: %s", tailStr(srvLog.String(), 800))
+		} else if n := stableSockets(srv.Process.Pid); n != srvBase {
+			bad("c19", "e2e-sockets", "psa-dhcpd holds %d sockets after REQUESTs with long hardware addresses, %d at start", n, srvBase)
+		}
+	}
+
+	// the server's replies cannot leave (the queue of its interface refuses frames of that size: sendto fails with ENOBUFS, while
+	// the small ARP probes pass): the handler gives the reply up, closes its socket and ends
+	if _, err := exec.LookPath("tc"); err == nil && alive(srv) {
+		if exec.Command("tc", "qdisc", "add", "dev", "veth0", "root", "tbf", "rate", "1mbit", "burst", "200", "latency", "1ms").Run() == nil {
+			seen("c19")
+			oc := &simClient{mac: []byte{2, 0xdd, 0, 0, 0, 0x33}, xid: 0x0d0d0d0d}
+			inject(net.HardwareAddr{0xff, 0xff, 0xff, 0xff, 0xff, 0xff}, net.HardwareAddr(oc.mac), 0x0800, udpip(0, 0xffffffff, 68, 67, 17, 64, oc.msg(1, 0x8000, 0).bytes()))
+			time.Sleep(2500 * time.Millisecond)
+			// (judged while the queue still refuses: a handler that keeps trying would get through once it is gone)
+			n := stableSockets(srv.Process.Pid)
+			exec.Command("tc", "qdisc", "del", "dev", "veth0", "root").Run()
+			if !alive(srv) {
+				bad("c19", "e2e-server-died", "psa-dhcpd is gone after a reply that could not be sent: %s", tailStr(srvLog.String(), 800))
+			} else if n != srvBase {
+				bad("c19", "e2e-sockets", "psa-dhcpd holds %d sockets 2.5 s after a reply that could not be sent (queue full), %d at start", n, srvBase)
+			}
 		}
 	}
 
@@ -554,6 +610,9 @@ func e2eInner(t *testing.T) {
 		if at := atomic.LoadInt64(&claimedAt); y == claimed && at != 0 {
 			bad("c08", "e2e-offered-claimed-address", "offered %s although a foreign host answered the server's ARP probe for it", ip4(y))
 		}
+		if at := atomic.LoadInt64(&claimed2At); y == claimed2 && at != 0 {
+			bad("c08", "e2e-offered-claimed-address", "offered %s although a foreign host answered the server's ARP probe for it (by link-layer broadcast, RFC 5227 2.6)", ip4(y))
+		}
 	}
 	checkIface := func(when string) {
 		seen("c15")
@@ -589,6 +648,17 @@ func e2eInner(t *testing.T) {
 			}
 		}
 		return -1
+	}
+	checkMTU := func(when string, want int) {
+		seen("c15")
+		out := ipOut("-o", "link", "show", "dev", "veth1")
+		got := -1
+		if i := strings.Index(out, " mtu "); i >= 0 {
+			fmt.Sscanf(out[i+5:], "%d", &got)
+		}
+		if got != want {
+			bad("c15", "e2e-interface", "%s: the interface has MTU %d", when, got)
+		}
 	}
 	checkLifetime := func(when string) {
 		// the kernel removes the address by itself when its lifetime runs out: it has to cover the lease just acknowledged
@@ -736,14 +806,27 @@ func e2eInner(t *testing.T) {
 		leased := lastAck.msg.yiaddr
 		if answer("ACK of another server", func(rq wreply) wmsg {
 			m := wmsg{op: 2, htype: 1, hlen: 6, xid: rq.msg.xid, yiaddr: rq.msg.ciaddr, siaddr: otherIP, chaddr: rq.msg.chaddr, cookie: 0x63825363}
-			m.opts = []wopt{{53, []byte{5}}, {54, u32b(otherIP)}, {51, u32b(0xffffffff)}, {1, []byte{255, 255, 255, 0}}, {3, u32b(otherIP)}, {6, u32b(0x0a4d0035)}, {15, []byte("e2e.test")}}
+			m.opts = []wopt{{53, []byte{5}}, {54, u32b(otherIP)}, {51, u32b(0xffffffff)}, {1, []byte{255, 255, 255, 0}}, {3, u32b(otherIP)}, {6, u32b(0x0a4d0035)}, {15, []byte("e2e.test")}, {26, []byte{0x05, 0x78}}}
 			x := parseReply(udpip(otherIP, rq.msg.ciaddr, 67, 68, 17, 64, m.bytes()))
 			lastAck = &x
 			return m
 		}) {
 			time.Sleep(300 * time.Millisecond) // (answer returns 2.5 s after the first ACK was injected)
-			checkIface("after another server's ACK with a new router and an infinite lease")
+			checkIface("after another server's ACK with a new router, an MTU of 1400 and an infinite lease")
 			checkLifetime("after another server's ACK with an infinite lease")
+			checkMTU("after another server's ACK announcing an interface MTU of 1400", 1400)
+		}
+		// the MTU of the most recent ACK, also when it is the one the interface had when the client was started
+		if answer("ACK of that server with the MTU back at 1500", func(rq wreply) wmsg {
+			m := wmsg{op: 2, htype: 1, hlen: 6, xid: rq.msg.xid, yiaddr: rq.msg.ciaddr, siaddr: otherIP, chaddr: rq.msg.chaddr, cookie: 0x63825363}
+			m.opts = []wopt{{53, []byte{5}}, {54, u32b(otherIP)}, {51, u32b(0xffffffff)}, {1, []byte{255, 255, 255, 0}}, {3, u32b(otherIP)}, {6, u32b(0x0a4d0035)}, {15, []byte("e2e.test")}, {26, []byte{0x05, 0xdc}}}
+			x := parseReply(udpip(otherIP, rq.msg.ciaddr, 67, 68, 17, 64, m.bytes()))
+			lastAck = &x
+			return m
+		}) {
+			time.Sleep(300 * time.Millisecond)
+			checkIface("after that server's second ACK")
+			checkMTU("after an ACK announcing an interface MTU of 1500 (an earlier one had announced 1400)", 1500)
 		}
 		if answer("NAK of that server", func(rq wreply) wmsg {
 			m := wmsg{op: 2, htype: 1, hlen: 6, xid: rq.msg.xid, chaddr: rq.msg.chaddr, cookie: 0x63825363}
